@@ -23,7 +23,7 @@ func init() {
 	})
 	Register(&Rule{
 		Name:  "R-MANIFEST-ORDER",
-		Props: []string{"C13"},
+		Props: []string{"C13", "C05", "C06"},
 		Min:   6,
 		Doc: "every return of a scanned manifest passes sort.Slice(Items, less-by-RelPath) with no append after it, then the ID assignment Items[i].ID = computeID(Items[i]) for all items; " +
 			"ScanPaths additionally passes a duplicate-RelPath test that leads to an error; computeID depends only on its argument",
